@@ -28,15 +28,19 @@ RULE = (
     "first order; second order with a2*a0 < 0 and one condition per end; operators factored as lead(x) prod (D - r_i(x)) "
     "with Hermite-type conditions) + a transform descriptor (none, Identity, LinearFinite, LinearInfinite, Exp, Power, "
     "Becke, Knowles, Handy, HandyMod, MultiExp, each forward or wrapped in InverseRTransform, random parameters, "
-    "x-interval inside the domain, length <= min(2.5, 3/L) with L the Lipschitz bound of the companion system) + IVP method "
-    "+ solver tolerance. non-trivial = (order >= 2 and a transform) or a non-constant coefficient; distinct = distinct descriptor"
+    "x-interval inside the domain, length <= min(2.5, 2/L) with L the Lipschitz bound of the companion system) + IVP method "
+    "(RK45, DOP853, Radau, LSODA, RK23, BDF) + solver tolerance (IVP rtol=atol in 1e-8..1e-10, BVP tol in 1e-6..1e-9). non-trivial = (order >= 2 and a transform) or a non-constant coefficient; distinct = distinct descriptor"
 )
 ASSUMPTIONS = [
-    "error model: |returned - exact| <= 100 * tol * S; for y: S = max(1,max|y|); for the k-th x-derivative "
-    "S = sum_j |M_kj(x)| max(1,max|d^j y/dr^j|) with M the chain-rule matrix between the solver variable r and x "
-    "(the solver controls the error of the r-derivatives; for no transform M = I); IVP: tol = rtol = atol and the bound is "
-    "multiplied by the growth bound exp(L*T) <= e^3 of the companion system (local-error control propagates with the "
-    "conditioning of the initial-value problem)",
+    "error model: |returned - exact| <= C * tol * G * S for y and every returned x-derivative, with "
+    "S = max over the interval and over k of S_k(x), S_0 = 1+|y|, S_k = sum_j |M_kj(x)| (1+|d^j y/dr^j|), M the chain-rule "
+    "matrix between the solver variable r and x (the solver controls y and its r-derivatives; an error committed anywhere in "
+    "any component reaches every component later); BVP: C = 100, G = 1, tol = the tol handed to solve_ode_bvp "
+    "(measured <= 0.005 of the bound over 9000 cases); IVP: tol = rtol = atol, G = exp(L*T) <= e^2 the growth bound of the "
+    "companion system, and C by method because scipy controls the error per step so that the global error is "
+    "(number of steps) x tol: C = 100 Radau, 300 DOP853, 1000 RK45/RK23, 3000 LSODA/BDF (measured max fraction of the bound "
+    "over 9000 cases: Radau 0.002, DOP853 0.014, RK45 0.021, RK23 0.003, LSODA 0.005, BDF 0.008); initial data at x0 are "
+    "re-read with C * tol * S_k(x0) (no growth factor)",
     "transform closed forms and their derivatives: own jets, self-tested against mpmath (30 digits)",
     "'The ode solver didn't converge' (ValueError) = inconclusive; BVP through a decreasing map (MultiExp, inverse of "
     "MultiExp) is not generated: which end 'lower/upper' means is not defined there; HyperbolicRTransform is not generated "
@@ -45,8 +49,9 @@ ASSUMPTIONS = [
 ]
 
 C_TOL = 100.0
-# IVP: scipy controls the error per step; the global error is (number of steps) x that, propagated.  The high-order
-# one-step methods need 10-50 steps here, the others 10^2-10^4 (calibration in the module docstring of subchecks()).
+# IVP: scipy controls the error per step; the global error is (number of steps) x that, propagated.  With C = 100 for
+# every method the measured maxima were 0.3 (BDF), 0.27 (RK45), 0.17 (LSODA), 0.07 (DOP853, RK23), 0.001 (Radau) of the
+# bound; the constants below restore a margin >= 45x for each method (see ASSUMPTIONS).
 C_METHOD = {"DOP853": 300.0, "Radau": 100.0, "RK45": 1000.0, "RK23": 1000.0, "BDF": 3000.0, "LSODA": 3000.0}
 NPTS = 23
 TWO_PI = 6.283185307179586
@@ -486,7 +491,8 @@ def _pinned_ivp():
     c2 = [{"kind": "const", "v": -1.0}, {"kind": "sin", "a": 0.5, "b": 0.3, "w": 1.0, "ph": 0.2}, {"kind": "const", "v": 1.0}]
     c3 = [{"kind": "const", "v": 0.4}] + c2
     out = []
-    # probes of the two recorded crashes (KNOWN-FINDING lines on every run while they are listed)
+    # regression cases of the two defects repaired in /repo (033fbb1: implicit methods with order >= 2; bc6281f:
+    # LinearInfiniteRTransform derivative methods with a scalar argument)
     for method in ("Radau", "BDF"):
         out.append(dict(base, order=2, coefs=c2, tf={"kind": "none"}, method=method))
         out.append(dict(base, order=3, coefs=c3, tf={"kind": "becke", "inv": True, "rmin": 0.0, "R": 1.5}, method=method))
@@ -495,6 +501,22 @@ def _pinned_ivp():
     # the library's own usage pattern: Poisson radial equation direction (backward, inverse Becke)
     out.append(dict(base, order=2, coefs=c2, tf={"kind": "becke", "inv": True, "rmin": 0.0, "R": 1.5}, method="DOP853", backward=True))
     return out
+
+
+def _pinned_bvp():
+    # regression: LinearInfiniteRTransform with derivatives returned (scalar deriv calls), the Poisson-like use
+    # (inverse Becke, value conditions at both ends, default no_derivatives), a third-order problem through Knowles
+    base = {"sol": _SOL0, "u0": 0.2, "ulen": 0.9, "npts": 20, "tol": 1e-8, "as_array": False, "perm": 0}
+    r = [{"kind": "const", "v": 0.5}, {"kind": "sin", "a": -0.4, "b": 0.3, "w": 1.0, "ph": 1.0}, {"kind": "const", "v": -0.8}]
+    lead = {"kind": "sin", "a": 1.0, "b": 0.2, "w": 0.7, "ph": 0.3}
+    return [
+        dict(base, family="fact", order=2, roots=r[:2], lead=lead, bc=[[0, 0], [0, 1]], no_deriv=False,
+             tf={"kind": "lininf", "inv": False, "rmin": 0.2, "rmax": 3.0, "b": 5.0}),
+        dict(base, family="fact", order=2, roots=r[:2], lead=lead, bc=[[0, 0], [1, 0]], no_deriv=True,
+             tf={"kind": "becke", "inv": True, "rmin": 0.0, "R": 1.5}),
+        dict(base, family="fact", order=3, roots=r, lead=lead, bc=[[0, 0], [1, 0], [1, 1]], no_deriv=False,
+             tf={"kind": "knowles", "inv": False, "rmin": 0.1, "R": 1.2, "k": 2}),
+    ]
 
 
 def selftest():
@@ -509,6 +531,6 @@ def selftest():
 def subchecks(tier, seed):
     quick = tier == "quick"
     return [
-        SubCheck("ivp", body_ivp, strategy=_ivp_strategy(), examples=2400 if quick else 24000, cases=_pinned_ivp(), shards=16, budget_s=150 if quick else 1500),
-        SubCheck("bvp", body_bvp, strategy=_bvp_strategy(), examples=2400 if quick else 24000, shards=16, budget_s=150 if quick else 1500),
+        SubCheck("ivp", body_ivp, strategy=_ivp_strategy(), examples=3200 if quick else 40000, cases=_pinned_ivp(), shards=16, budget_s=240 if quick else 1500),
+        SubCheck("bvp", body_bvp, strategy=_bvp_strategy(), examples=3200 if quick else 40000, cases=_pinned_bvp(), shards=16, budget_s=240 if quick else 1500),
     ]
